@@ -1035,8 +1035,11 @@ def wmom(
     # user has input a mean value
     if inputmean is None:
         wmean = (weights * arr).sum(axis=0) / wtot
-    else:
+    elif np.ndim(inputmean) == 0:
         wmean = float(inputmean)
+    else:
+        # one mean per dimension
+        wmean = np.array(inputmean, dtype="f8")
 
     # how should error be calculated?
     if calcerr:
